@@ -33,6 +33,10 @@ type MethodType struct {
 	TypePackage string
 	IsPointer   bool
 	IsVariadic  bool
+
+	// Type is the go/types type this description was loaded from (the element type
+	// for a variadic parameter); nil for hand-built models
+	Type types.Type
 }
 
 // LoadTypes loads specified named types from the current package
@@ -188,9 +192,16 @@ func extractMethodTypesFromTuple(tuple *types.Tuple, isVariadic bool) []MethodTy
 
 // convertTypesToMethodType converts types.Type to MethodType
 func convertTypesToMethodType(t types.Type) MethodType {
+	result := describeMethodType(t)
+	result.Type = t
+	return result
+}
+
+// describeMethodType fills the display fields of MethodType
+func describeMethodType(t types.Type) MethodType {
 	// Handle pointer
 	if ptr, ok := t.(*types.Pointer); ok {
-		inner := convertTypesToMethodType(ptr.Elem())
+		inner := describeMethodType(ptr.Elem())
 		inner.IsPointer = true
 		return inner
 	}
